@@ -425,7 +425,7 @@ def _blocks_of(f: ast.AST):
 _SYM_CACHE: dict = {}
 
 
-def unfolded(func: ast.AST, node: ast.AST, facts: dict[str, bool] | None = None, get=None) -> list[ast.AST] | None:
+def unfolded(func: ast.AST, node: ast.AST, facts: dict[str, bool] | None = None, get=None, max_len: int | None = None) -> list[ast.AST] | None:
     """Alternatives for the value of ``node`` (an expression inside ``func``) with the locals it reads unfolded.
 
     With ``facts`` the function is first specialised (tests whose text is a key are fixed), so a local re-assigned
@@ -436,7 +436,7 @@ def unfolded(func: ast.AST, node: ast.AST, facts: dict[str, bool] | None = None,
     from gv.dataflow import SymValues
     from gv.shapes import specialise
 
-    key = (id(func), tuple(sorted((facts or {}).items())))
+    key = (id(func), tuple(sorted((facts or {}).items())), max_len)
     if key not in _SYM_CACHE:
         # every node carries an identity that survives the deep copy made by the specialisation (positions do not
         # identify a node: statements inlined from a helper all have the position of the call they replace)
@@ -444,7 +444,7 @@ def unfolded(func: ast.AST, node: ast.AST, facts: dict[str, bool] | None = None,
             if not hasattr(n_, "_gv_uid"):
                 n_._gv_uid = (id(func), k_)
         g = specialise(func, facts) if facts else func
-        _SYM_CACHE[key] = (func, g, SymValues(g))  # func kept alive so that id() stays unique
+        _SYM_CACHE[key] = (func, g, SymValues(g) if max_len is None else SymValues(g, max_len=max_len))  # func kept alive so that id() stays unique
     _, g, sv = _SYM_CACHE[key]
     if g is func:
         target = node
